@@ -91,6 +91,11 @@ def CS.ctx (a : CS) (s : Sig) (pr : Bool) : Ctx :=
 def signalDuringStop (wait info crit : Bool) (s : Sig) (pr : Bool) (a b : CS) : Fe × Outcome :=
   exec { backendRunning := b.serving, infoOn := info, critOn := crit, waitOnExit := wait } s (onSignal (a.ctx s pr)) false false b.fe
 
+/-- the same with the handler's wait ending when the backend thread is gone (`gu`: extracted `flushEndsWhenBackendGone`) -/
+def signalDuringStopG (gu wait info crit : Bool) (s : Sig) (pr : Bool) (a b : CS) : Fe × Outcome :=
+  exec { backendRunning := b.serving, infoOn := info, critOn := crit, waitOnExit := wait, flushGivesUp := gu } s
+    (onSignal (a.ctx s pr)) false false b.fe
+
 /-- invariant of every state reachable with the current order (a Boolean, so that instances can be `decide`d) -/
 def CS.ok (c : CS) : Bool :=
   decide (c.pc ≤ 6) && (c.idSet == decide (c.pc < 6)) && (c.running == decide (c.pc = 0)) && (!c.ended || !c.serving) &&
